@@ -246,7 +246,7 @@ META = {
         "technique": "Coq codec model + round-trip proof (induction on type references and lists) + composition with the view soundness theorem; differential correspondence of the full JSON answer; projection oracles for other query shapes",
     },
     "C08": {
-        "text": "Theorem C08_conflict_fails: for ALL pairs of schemas, if the accumulated schema and the new one define the same name and the pair is a conflict (different kinds; a non-shared object/interface/union/enum/input defined twice; boundary vs plain; namespace vs boundary; non-object federation type) the pairwise merge fails, wherever the definition sits and whatever else the schemas contain (induction over the fold with an invariant on the accumulator); C08_overlapping_boundary_field_fails for the field-level conflict. Order independence is decided per case: all n! merge orders (n <= 4) through the real MergeSchemas must give the same outcome and the same order-free schema signature; the routing tables after polling must not depend on the poll completion order (two forced orders); 35% of the cases carry one injected conflict of 10 kinds, which every order must reject.",
+        "text": "Theorem C08_conflict_fails: for ALL pairs of schemas, if the accumulated schema and the new one define the same name and the pair is a conflict (different kinds; a non-shared object/interface/union/enum/input defined twice; boundary vs plain; namespace vs boundary; non-object federation type) the pairwise merge fails, wherever the definition sits and whatever else the schemas contain (induction over the fold with an invariant on the accumulator); C08_overlapping_boundary_field_fails for the field-level conflict. Order independence is decided per case: all n! merge orders (n <= 4) through the real MergeSchemas must give the same outcome and the same order-free schema signature; the routing tables after polling must not depend on the poll completion order (two forced orders); about 40% of the cases carry one injected conflict of 17 kinds (taken in turn), which every order must reject; a third of the federations have services in the former Node syntax.",
         "note": "Permutation invariance is exhaustively enumerated per case, not proved for all n.",
         "technique": "Coq fold-invariant proof of conflict rejection + exhaustive enumeration of merge orders on generated federations + model correspondence",
     },
